@@ -165,7 +165,7 @@ def write_config(r):
         'group_md': r.random() < .4,
         'table_id': r.choice([None, None, 'tbl-1', 'таблица "x"/7']),
         'generated_by': r.choice(['vm-check', 'gén "q" 1.0', 'a\\b']),
-        'date_variant': r.randrange(3),
+        'date_variant': r.randrange(len(DATES)),
         'use_format_fs': r.random() < .08,
     }
     if cfg['writer'] == 'save_table_default':
@@ -205,6 +205,20 @@ def reloaded_group_metadata(ctx, t, index, sig_prefix, desc):
                     g[k] = ('newick', v)
 
 
+_TZ = datetime.timezone
+DATES = [datetime.datetime(2021, 3, 4, 5, 6, 7, 891011),
+         datetime.datetime(2021, 3, 4, 5, 6, 7),
+         datetime.datetime(2000, 1, 1),
+         # dates that say which time zone they are in
+         datetime.datetime(2021, 3, 4, 5, 6, 7, 123, tzinfo=_TZ.utc),
+         datetime.datetime(2021, 3, 4, 5, 6, 7, tzinfo=_TZ(
+             datetime.timedelta(hours=5, minutes=30))),
+         datetime.datetime(1999, 12, 31, 23, 59, 59, 999999, tzinfo=_TZ(
+             datetime.timedelta(hours=-8))),
+         datetime.datetime(1970, 1, 1), datetime.datetime(9999, 12, 31, 23,
+                                                          59, 59)]
+
+
 def write(ctx, t, cfg, path):
     """Writes t per cfg; returns dict of what was passed."""
     if cfg['table_id'] is not None:
@@ -218,9 +232,7 @@ def write(ctx, t, cfg, path):
         t.add_group_metadata(dict(gmd), axis='observation')
         t.add_group_metadata({'graph': ('json', '{"a": [1, 2]}')},
                              axis='sample')
-    date = [datetime.datetime(2021, 3, 4, 5, 6, 7, 891011),
-            datetime.datetime(2021, 3, 4, 5, 6, 7),
-            datetime.datetime(2000, 1, 1)][cfg.get('date_variant', 0)] \
+    date = DATES[cfg.get('date_variant', 0)] \
         if cfg['date'] == 'given' else None
     kw = {'compress': cfg['compress']}
     if date is not None:
@@ -427,3 +439,93 @@ def undo_custom(md_list, cat):
             e[cat] = e[cat][::-1]
         out.append(e)
     return out
+
+
+RAGGED_VARIANTS = ['extra-on-later', 'missing-on-later', 'first-lacks',
+                   'disjoint-keys', 'extra-on-last-only']
+
+
+def ragged_case(ctx, index, r, sig):
+    """Per-id metadata whose categories differ between ids cannot be held by
+    a BIOM 2.1 file (one dataset per category, one entry per id).  Writing
+    such a table is either refused, or — if a file is produced — the file
+    has to give every id back exactly the metadata it had."""
+    import copy
+    axis = r.choice(['observation', 'sample'])
+    n, m = r.randint(2, 5), r.randint(1, 4)
+    if axis == 'sample':
+        n, m = m, n
+    spec = gen.gen_spec(r, shape=(n, m), md_kinds=['text', 'int', 'float'],
+                        id_classes=['ascii', 'one', 'cjk', 'numeric'],
+                        value_classes=['count', 'frac'])
+    k = len(spec.ids(axis))
+    md = [dict(e) for e in (spec.md(axis) or [{'env': 'a'} for _ in
+                                              range(k)])]
+    base = sorted(md[0])[0]
+    variant = RAGGED_VARIANTS[index % len(RAGGED_VARIANTS)]
+    later = r.randrange(1, k)
+    if variant == 'extra-on-later':
+        md[later]['vm confidence'] = 0.5
+    elif variant == 'extra-on-last-only':
+        md[-1]['vm_pH'] = 7
+    elif variant == 'missing-on-later':
+        for e in md:
+            e.setdefault('vm_depth', 3)
+        del md[later]['vm_depth']
+    elif variant == 'first-lacks':
+        for e in md[1:]:
+            e['vm_depth'] = 4
+    else:
+        for q, e in enumerate(md):
+            v = e.pop(base)
+            e['%s_%d' % (base, q)] = v
+    if axis == 'observation':
+        spec.obs_md = md
+    else:
+        spec.samp_md = md
+    desc = {'table': spec.describe(), 'ragged': variant, 'axis': axis}
+    route = r.choice(['to_hdf5', 'to_hdf5', 'save_table', 'cli-convert'])
+    desc['route'] = route
+    t = gen.build(ctx.biom, spec, 'dense')
+    ctx.count('ragged_metadata_cases')
+    path = ctx.path('ragged%d.biom' % index)
+    try:
+        try:
+            if route == 'to_hdf5':
+                with h5py.File(path, 'w') as f:
+                    t.to_hdf5(f, 'vm', compress=r.random() < .5)
+            elif route == 'save_table':
+                ctx.biom.save_table(t, path)
+            else:
+                jp = ctx.path('ragged%d.json' % index)
+                with open(jp, 'w') as f:
+                    f.write(t.to_json('vm'))
+                from click.testing import CliRunner
+                from biom.cli import cli
+                rr = CliRunner().invoke(cli, ['convert', '-i', jp, '-o', path,
+                                              '--to-hdf5'])
+                os.remove(jp)
+                if rr.exit_code != 0:
+                    raise RuntimeError('exit %s' % rr.exit_code)
+        except Exception:
+            ctx.count('ragged_metadata_refused')
+            ctx.case(desc, True)
+            return
+        ctx.count('ragged_metadata_written')
+        exp = snap.canon_md(copy.deepcopy(md), k)
+        try:
+            t2 = ctx.biom.load_table(path)
+            got = snap.canon_md(t2.metadata(axis=axis), k)
+        except Exception as e:
+            raise Violation(sig + '/ragged-metadata-file-unreadable',
+                            '%s: %s; case=%r' % (type(e).__name__, e, desc))
+        if not snap.md_equal(got, exp):
+            raise Violation(sig + '/ragged-metadata-written-lossy',
+                            'a table whose ids carry different metadata '
+                            'categories was written without complaint; the '
+                            'file gives back %r for %r; case=%r' %
+                            (got, exp, desc))
+    finally:
+        if os.path.exists(path):
+            os.remove(path)
+    ctx.case(desc, True)
